@@ -884,7 +884,12 @@ theorem C32_facts_tied :
     Generated.C32.replicationUsesRowDatabase = true ∧
     Generated.C32.walRoutingKeysLast = true ∧
     Generated.C32.importPreambleSwallowsErrors = false ∧
-    Generated.C32.importPreambleFailuresStop = true := by
+    Generated.C32.importPreambleFailuresStop = true ∧
+    -- every request-derived string that outlives the handler (it becomes a buffer key / flush-task field) is
+    -- copied out of the fasthttp buffer; the only guarded copies are the else-branches of "header absent"
+    Generated.C32.cloneSites.all (fun c => c.2.2 = "" || c.2.2 = "database==\"\":else" ||
+      c.2.2 = "measurement==\"\":else") = true ∧
+    (Generated.C32.cloneSites.map (·.1)).eraseDups.length = 6 := by
   decide
 
 end Arc.C32
